@@ -1,0 +1,27 @@
+//go:build verif
+// +build verif
+
+package electreIII
+
+import (
+	. "github.com/Azbesciak/RealDecisionMaker/lib/model"
+)
+
+// Verification hooks (build tag "verif"): read-only access to intermediate results of ELECTRE III for runtime
+// monitors. Nothing here is compiled into a normal build.
+
+// VerifCredibilityMatrix returns the credibility matrix (row i, column j = credibility of "i outranks j", diagonal 1)
+// exactly as Evaluate computes it before the distillations.
+func VerifCredibilityMatrix(alternatives []AlternativeWithCriteria, criteria Criteria, electreCriteria *ElectreCriteria) ([]string, [][]float64) {
+	m := evaluateCredibilityMatrix(&alternatives, &criteria, electreCriteria)
+	ids := make([]string, len(*m.Alternatives))
+	copy(ids, *m.Alternatives)
+	sigma := make([][]float64, m.Values.Size)
+	for i := range sigma {
+		sigma[i] = make([]float64, m.Values.Size)
+		for j := range sigma[i] {
+			sigma[i][j] = m.Values.At(i, j)
+		}
+	}
+	return ids, sigma
+}
